@@ -5,7 +5,7 @@ Require Import MV.C14.Model MV.C14.Spec MV.C14.Proofs MV.C14.ProofsMoves MV.C14.
 Open Scope N_scope.
 
 (* the simulation is proved for every operation except WithExtra (exercised on the real code only) *)
-Definition op_core (o : op) : bool := match o with WithExtra _ _ => false | _ => op_wf o end.
+Definition op_core (o : op) : bool := match o with WithExtra _ _ | IntoStdCow _ => false | _ => op_wf o end.
 Definition core (p : list op) : bool := forallb op_core p.
 
 Lemma sim_step tr m s o : Rst m s -> op_core o = true -> sim tr m s o.
